@@ -31,10 +31,7 @@ func innermostBody(d *ast.FuncDecl, n ast.Node) *ast.BlockStmt {
 }
 
 // site exceptions for P2: function/slice[index] -> invariant that makes it safe
-var p2Exceptions = map[string]string{
-	"internal/validation.NewValidationError/groups[2]": "FindStringSubmatch of a regexp with two capture groups returns nil or 3 elements; the access is inside `groups != nil`",
-	"internal/validation.NewValidationError/groups[0]": "same: non-nil submatch slice always has element 0",
-}
+var p2Exceptions = map[string]string{}
 
 // P2: constant index into a slice needs a dominating length fact.
 func ruleConstIndex(fileScope func(string) bool, ruleID string, min int) func(c *core.Ctx) {
@@ -1232,6 +1229,59 @@ func ruleBinaryOperatorTokens(c *core.Ctx) {
 			for _, e := range cc.List {
 				if id, ok := ast.Unparen(e).(*ast.Ident); ok {
 					handled[info.Uses[id]] = true
+				}
+			}
+		}
+		return true
+	})
+	// the if-form of a case (`tok.Type == TokenTypeAs`) and a lookup table of the package that the function searches
+	// (`for i := range arithmeticOperators { if arithmeticOperators[i].tokenType != tok.Type { continue } ...`)
+	isTokenVar := func(o types.Object) bool {
+		v, ok := o.(*types.Var)
+		return ok && v.Parent() == p.Types.Scope() && strings.HasPrefix(v.Name(), "TokenType")
+	}
+	ast.Inspect(d.Body, func(n ast.Node) bool {
+		switch x := n.(type) {
+		case *ast.BinaryExpr:
+			if x.Op == token.EQL || x.Op == token.NEQ {
+				for _, e := range []ast.Expr{x.X, x.Y} {
+					if o := identObj(info, e); o != nil && isTokenVar(o) {
+						handled[o] = true
+					}
+				}
+			}
+		case *ast.Ident:
+			v, ok := info.Uses[x].(*types.Var)
+			if !ok || v.Parent() != p.Types.Scope() || v.Name() == "operatorInfo" {
+				return true
+			}
+			for _, f := range p.Syntax {
+				for _, decl := range f.Decls {
+					gd, ok := decl.(*ast.GenDecl)
+					if !ok {
+						continue
+					}
+					for _, sp := range gd.Specs {
+						vs, ok := sp.(*ast.ValueSpec)
+						if !ok {
+							continue
+						}
+						for i, nm := range vs.Names {
+							if info.Defs[nm] != types.Object(v) || i >= len(vs.Values) {
+								continue
+							}
+							if lit, ok := vs.Values[i].(*ast.CompositeLit); ok {
+								ast.Inspect(lit, func(m ast.Node) bool {
+									if id, ok := m.(*ast.Ident); ok {
+										if o := info.Uses[id]; o != nil && isTokenVar(o) {
+											handled[o] = true
+										}
+									}
+									return true
+								})
+							}
+						}
+					}
 				}
 			}
 		}
